@@ -16,9 +16,12 @@ def run(chk):
     chk.mc('plan-defaults', 'MC_PlanDefaults', 'MC_PlanDefaults.cfg', workers=1)
     recs = core.run_driver('align', tier=chk.tier, seed=chk.seed, args=dict(prop='C16plan', max_stft=mx))
     nvalid = sum(1 for x in recs if x['exc'] == '' and not x['case'].get('default') and x['case']['stft'] <= mx)
-    if nvalid != r.distinct:
-        raise core.MachineryError(f'plan enumeration: driver {nvalid} valid configurations, MC instance {r.distinct}')
+    nv0 = len(chk.violations)
     chk.validate('plan-enumerated', 'Trace_Align', 'Trace_Align.cfg', recs, driver='align', jobs=12)
+    if nvalid != r.distinct and len(chk.violations) == nv0:
+        # (a count that differs BECAUSE the code accepts / rejects other configurations than the specification shows up as
+        # rejected records above; only an unexplained difference is an enumeration fault of the machinery)
+        raise core.MachineryError(f'plan enumeration: driver {nvalid} valid configurations, MC instance {r.distinct}')
     # DHTV machine
     if q:
         r = chk.mc('dhtv-machine', 'MC_DHTV', 'MC_DHTV_q.cfg', workers=8)
